@@ -69,7 +69,7 @@ def run(tier, seed):
         "every solver verdict cross-checked by a second solver",
     ]
     res.assumptions = ["ExtType arguments that are not TypeTypeArg (e.g. a VariableArg in a type position) do not contribute to the bound - the statement speaks of type arguments; that shape cannot come from a decoded document"]
-    standard_flow(res, FILES, TARGETS, None, bounded_modules=[("bounded.c07", 120, 600)])
+    standard_flow(res, FILES, TARGETS, None, bounded_modules=[("bounded.c07", 900, 600)])
     for g in ground_defs() + [class_table_facts()]:
         res.ground.append(g)
         if not g["ok"]:
